@@ -528,6 +528,19 @@ func genC07(r *rng, tier string, res *Result) {
 	res.Tags["compactions_that_removed_segments"] = st.compactions
 	res.Tags["compaction_yield_points_hit"] = st.yields
 	res.Samples = append(res.Samples, []byte(`"2-7 goroutines x 40-100 ops on 2-5 keys + background Compact/Sync/Count/Items/Backup; per-key porcupine check"`))
+	// interleavings of ATOMIC STEPS, executed deterministically: Compact stepped lock section by lock
+	// section with Puts of new keys (index splits) in the windows; the history is sequential, the
+	// reference map and the micro-step model (the objects of Linz.C07_linearizable_microsteps) decide
+	var cases []*Case
+	var impls [][][]string
+	genSplitInsideCompaction(r, tier, "C07", func(g *G) {
+		c, impl := g.finish()
+		cases = append(cases, c)
+		impls = append(impls, impl)
+	})
+	steps := res.Steps
+	runCases(res, cases, impls, !noModel)
+	res.Tags["operations_in_stepped_compaction_histories"] = res.Steps - steps
 }
 
 // ---- C10: no data race, panic, fault or deadlock, including Close racing with everything.
